@@ -374,7 +374,8 @@ def run_case(case, ctx):
             ctx.label("nan_channel")
         if r["tr"] >= T - 6 or r["swapped"] or nanch:
             ctx.nontrivial = True
-        ctx.stat("min_argmax_gap_rel", r["gap_rel"])
+        if r["gap_rel"] != math.inf:
+            ctx.stat("min_argmax_gap_rel", r["gap_rel"])
         ctx.stat("min_half_margin_rel", r["half_margin_rel"])
         if r["ratio_margin"] != math.inf:
             ctx.stat("min_ratio_margin", r["ratio_margin"])
@@ -474,7 +475,7 @@ def run_case(case, ctx):
                                                 f"(values x c, everything else unchanged)")
 
     # ---- channel permutation only permutes peak_trace_idx
-    if C > 1:
+    if C > 1 and not any(r["skip"] == "tie" for r in refs):  # an exact tie between traces is resolved by position
         perm = np.random.default_rng(case["seed"] ^ 0x5EED).permutation(C)
         gp = ctx.call("C14.perm", _features, W[:, :, perm], k)
         if gp is not ctx.CRASH:
